@@ -514,3 +514,26 @@ def c11(ctx):
                   "event; TLC demands outer = FilterFree(inner, collides); forward / link poses against the independent stack model; "
                   "non-trivial = events whose underlying answers are partly colliding",
                   assumptions=["the collides() verdict itself is C10's subject"])
+
+
+# ----------------------------------------------------------------------------- C19
+@check("C19")
+def c19(ctx):
+    g = tlc(ctx, "Gen_Yaml", workers=8)
+    lines = tlc_json_lines(g["out"], "yaml")
+    if not lines:
+        raise core.ToolError("Gen_Yaml printed nothing")
+    write_ndjson(ctx.path("yaml.ndjson"), lines)
+    opwv(ctx, ["replay", "yaml", ctx.path("yaml.ndjson"), ctx.path("yaml.out")], env_extra={"VERIF_TMP": ctx.work})
+    st = replay_results(ctx, ctx.path("yaml.out"), "C19")
+    ctx.evaluations += st.get("evaluations", 0)
+    ctx.traces += len(lines)
+    for ln in lines:
+        ctx.nontrivial.add(json.dumps(ln, sort_keys=True))
+    ctx.exhaustive = True
+    return finish(ctx, rule="every variant of the documented format enumerated by TLC (Gen_Yaml: literal style of lengths x offset token "
+                  "pattern (int / real radians / deg(int) / deg(real)) x 5|6 offsets x 5|6 signs x dof absent|top-level|nested x sixth "
+                  "sign x layout), rendered with seeded values and parsed, compared with the expected meaning; to_yaml round trips of "
+                  "named and random parameter sets (integral lengths, negative values, dof 5, zero J6 sign); malformed family + fuzzed "
+                  "byte strings must return Err, never panic",
+                  assumptions=["offsets compared to the printed precision (1e-4 degree)"])
